@@ -365,3 +365,16 @@ Definition conn_reusable_after (req_close : bool) (ans : continue_answer) : bool
 (* the bytes one exchange leaves on the connection *)
 Definition exchange_wire (head framed_body : bytes) (req_close : bool) (ans : continue_answer) : bytes :=
   head ++ (if expect_sends_body req_close ans then framed_body else []).
+
+(* ---------- the HTTP/3 request writer shared by all requests of one connection ----------
+   requestWriter.writeHeaders runs under the writer's mutex: the field section is encoded into the
+   shared headerBuf, copied - with the frame header - into a buffer of the request's own, and
+   headerBuf is Reset.  The state carried from one request to the next is headerBuf's content.
+   (That the critical section is atomic and the copy private is validated by the concurrent cells
+   of the harness, not proved.) *)
+Definition h3w_write (st : list line) (q : creq) : list line * list line := (st ++ h3_lines q, []).
+Fixpoint h3w_run (st : list line) (qs : list creq) : list (list line) :=
+  match qs with
+  | [] => []
+  | q :: r => let '(f, st') := h3w_write st q in f :: h3w_run st' r
+  end.
